@@ -6,6 +6,7 @@ Model  = PdfVerif/Model/Paths.lean  (what pdfminer does: flat `curpath`, operato
 Spec   = PdfVerif/Spec/Paths.lean   (what the property demands: sub-path records, `shapeOf`)
 -/
 import PdfVerif.Lemmas.PathsProg
+import PdfVerif.Lemmas.PathsRect
 
 set_option linter.constructorNameAsVariable false
 
@@ -139,6 +140,16 @@ theorem C16_arity_fixed :
 no colour for Pattern. -/
 theorem C16_initial_colour (sp : Space) : initialColour sp = isoInit sp := initialColour_eq_iso sp
 
+/-- The bound of `_initial_color` (regenerated constant `initMaxComponents`): a "colour space" with more than
+32 components (a damaged /N of an ICC profile) gets no initial colour - for every family; 32 components
+(the ISO limit for DeviceN) still get theirs. -/
+theorem C16_initial_colour_bound (sp : Space) (h : sp.n > 32) :
+    initialColour sp = none ∧ initialColour ⟨"DeviceN", 32⟩ = some (.comps (List.replicate 32 1)) := by
+  refine ⟨?_, by decide +kernel⟩
+  rw [initialColour_eq_iso]
+  unfold isoInit
+  simp [h]
+
 /-- `cs`/`CS` on a known colour space select the space and its ISO initial colour; nothing else changes. -/
 theorem C16_cs_resets_colour (st : IState) (name : String) (sp : CSpace) (h : csLookup st.csmap name = some sp) :
     ∃ st', call .cs [.name name] st = .ok st' ∧ st'.gs.ncolor = isoInit sp ∧ st'.gs.ncs = sp.n ∧
@@ -181,6 +192,261 @@ theorem C16_page_ctm (x0 y0 x1 y1 : Rat) :
     apply_matrix_pt (pageCtm 180 x0 y0 x1 y1) (x1, y1) = (0, 0) ∧
     apply_matrix_pt (pageCtm 270 x0 y0 x1 y1) (x0, y1) = (0, 0) := by
   refine ⟨?_, ?_, ?_, ?_⟩ <;> simp [pageCtm, apply_matrix_pt] <;> grind
+
+/-! ## Round 6: the straight-line tests of `paint_path` (regenerated from converter.py on every run) -/
+
+/-- The shape-string tests and point indices of `PDFLayoutAnalyzer.paint_path`, extracted from the Python
+source, are the ones the property demands: a line is `ml`/`mlh` with end points `pts[0], pts[1]`; a rectangle
+candidate is `mlllh`/`mllll` with `pts[0] == pts[4]`, corners `pts[0], pts[2]`, points `pts[:4]`; the redundant
+closing `l` is dropped when `len(shape) > 3`, the string ends in `lh` and `pts[-2] == pts[0]`.  The model's
+`classifyShape` / `redundantL` / `paintSingle` are built from these definitions, so an edit of any of these
+lines of converter.py breaks this proof (and `C16_paint_path`). -/
+theorem C16_shape_tests :
+    lineShapes = [['m', 'l', 'h'], ['m', 'l']] ∧ linePts = (0, 1) ∧
+    rectShapes = [['m', 'l', 'l', 'l', 'h'], ['m', 'l', 'l', 'l', 'l']] ∧ closedLoopPts = (0, 4) ∧
+    rectCorners = (0, 2) ∧ rectPtsTake = 4 ∧
+    redundantMinLen = 3 ∧ redundantSuffix = ['l', 'h'] ∧ redundantPts = (2, 0) ∧ redundantCut = 2 ∧
+    redundantTail = ['h'] := by
+  decide
+
+/-- The regenerated `has_square_coordinates` holds exactly for axis-aligned quadrilaterals (first side
+vertical, or first side horizontal). -/
+theorem C16_square_coordinates (p0 p1 p2 p3 : Point) :
+    squareCoords p0 p1 p2 p3 = true ↔
+      (p0.1 = p1.1 ∧ p1.2 = p2.2 ∧ p2.1 = p3.1 ∧ p3.2 = p0.2) ∨
+      (p0.2 = p1.2 ∧ p1.1 = p2.1 ∧ p2.2 = p3.2 ∧ p3.1 = p0.1) := by
+  rw [squareCoords_eq]
+  unfold axisAligned
+  rw [decide_eq_true_eq]
+
+/-- When is a transformed rectangle still an `LTRect`?  For EVERY matrix `(a b c d e f)` (rotation, shear,
+mirror, singular) and every `x y w h re` with `w ≠ 0`, `h ≠ 0` (negative extents included) painted by any
+operator: exactly one shape; it is an `LTRect` iff the matrix maps the y direction onto one axis without
+collapsing it and the x direction into the other axis (`a = d = 0, c ≠ 0` or `b = c = 0, d ≠ 0`: multiples of
+quarter turns and mirrors with any scales, the x scale may be 0); otherwise an `LTCurve`.  Points = the
+transformed corners in path order (+ the closing point for a curve, unless the matrix collapses the y
+direction: then the 4th side is the closing segment); `original_path` = the transformed `m l l l h`;
+flags, width, dash and colours are those of the paint call. -/
+theorem C16_rect_under_ctm (a b c d e f : Rat) (args : PaintArgs) (x y w h : Rat) (hw : w ≠ 0) (hh : h ≠ 0) :
+    ∃ sh, paintPath (a, b, c, d, e, f) args ((rePath x y w h).filterMap segOfRaw) = [sh] ∧
+      (sh.kind = .rect ↔ (a = 0 ∧ d = 0 ∧ c ≠ 0) ∨ (b = 0 ∧ c = 0 ∧ d ≠ 0)) ∧
+      (sh.kind ≠ .rect → sh.kind = .curve) ∧
+      sh.pts = (let T := apply_matrix_pt (a, b, c, d, e, f)
+                if sh.kind = .rect ∨ (c = 0 ∧ d = 0) then [T (x, y), T (x + w, y), T (x + w, y + h), T (x, y + h)]
+                else [T (x, y), T (x + w, y), T (x + w, y + h), T (x, y + h), T (x, y)]) ∧
+      sh.path = (let T := apply_matrix_pt (a, b, c, d, e, f)
+                 [.m (T (x, y)), .l (T (x + w, y)), .l (T (x + w, y + h)), .l (T (x, y + h)), .h]) ∧
+      sh.stroke = args.stroke ∧ sh.fill = args.fill ∧ sh.evenodd = args.evenodd ∧
+      sh.linewidth = args.gs.linewidth ∧ sh.dash = args.gs.dash ∧ sh.scolor = args.gs.scolor ∧
+      sh.ncolor = args.gs.ncolor := by
+  have hcol := re_corner_collapses a b c d e f x y h hh
+  have hsq := re_square_under_ctm a b c d e f x y w h hw hh
+  rw [paintPath_re]
+  simp only []
+  by_cases h1 : c = 0 ∧ d = 0
+  · rw [if_pos (hcol.2 h1)]
+    refine ⟨_, rfl, ?_, fun _ => rfl, ?_, rfl, rfl, rfl, rfl, rfl, rfl, rfl, rfl⟩
+    · simp only [mkCurve, mkShape]
+      constructor
+      · intro hk; cases hk
+      · rintro (⟨_, _, hc⟩ | ⟨_, _, hd⟩)
+        · exact absurd h1.1 hc
+        · exact absurd h1.2 hd
+    · simp [mkCurve, mkShape, h1]
+  · rw [if_neg (fun hp => h1 (hcol.1 hp))]
+    by_cases h2 : (a = 0 ∧ d = 0) ∨ (b = 0 ∧ c = 0)
+    · rw [if_pos (hsq.2 h2)]
+      refine ⟨_, rfl, ?_, fun hk => absurd rfl hk, ?_, rfl, rfl, rfl, rfl, rfl, rfl, rfl, rfl⟩
+      · simp only [mkRect, mkShape, true_iff]
+        rcases h2 with ⟨ha, hd⟩ | ⟨hb, hc⟩
+        · exact Or.inl ⟨ha, hd, fun hc => h1 ⟨hc, hd⟩⟩
+        · exact Or.inr ⟨hb, hc, fun hd => h1 ⟨hc, hd⟩⟩
+      · simp [mkRect, mkShape]
+    · rw [if_neg (fun hp => h2 (hsq.1 hp))]
+      refine ⟨_, rfl, ?_, fun _ => rfl, ?_, rfl, rfl, rfl, rfl, rfl, rfl, rfl, rfl⟩
+      · simp only [mkCurve, mkShape]
+        constructor
+        · intro hk; cases hk
+        · rintro (⟨ha, hd, _⟩ | ⟨hb, hc, _⟩)
+          · exact absurd (Or.inl ⟨ha, hd⟩) h2
+          · exact absurd (Or.inr ⟨hb, hc⟩) h2
+      · simp [mkCurve, mkShape, h1]
+
+/-- Non-vacuity / instances: a quarter turn with scale 2 and a negative height keeps the `LTRect` (corners in
+path order); a shear makes it a 5-point `LTCurve`; a matrix collapsing the y direction gives a 4-point curve. -/
+example :
+    (paintPath (0, 2, -2, 0, 5, 7) (argsOf cexG true true false) ((rePath 1 2 3 (-4)).filterMap segOfRaw)).map
+        (fun s => (s.kind, s.pts)) = [(.rect, [(1, 9), (1, 15), (9, 15), (9, 9)])] ∧
+    (paintPath (1, 0, 1, 1, 0, 0) (argsOf cexG true false false) ((rePath 0 0 2 1).filterMap segOfRaw)).map
+        (fun s => (s.kind, s.pts)) = [(.curve, [(0, 0), (2, 0), (3, 1), (1, 1), (0, 0)])] ∧
+    (paintPath (1, 1, 0, 0, 0, 0) (argsOf cexG true false false) ((rePath 0 0 2 1).filterMap segOfRaw)).map
+        (fun s => (s.kind, s.pts)) = [(.curve, [(0, 0), (2, 2), (2, 2), (0, 0)])] := by
+  refine ⟨by decide +kernel, by decide +kernel, by decide +kernel⟩
+
+/-! ## Round 6: path construction operators regenerated from pdfinterp.py -/
+
+/-- `do_m do_l do_c do_v do_y` (operand order extracted from the Python source, every operand guarded by
+`safe_float`): with numeric operands each appends exactly the segment of ISO 32000-1 table 59 with the
+operands in the order given - `x1 y1 x2 y2 x3 y3 c`, `x2 y2 x3 y3 v`, `x1 y1 x3 y3 y`.  Swapping two
+coordinates in pdfinterp.py breaks this proof. -/
+theorem C16_segment_operands (st : IState) (x1 y1 x2 y2 x3 y3 : Rat) :
+    call .m [.num x1, .num y1] st = .ok (pushSeg st (.m (x1, y1))) ∧
+    call .l [.num x1, .num y1] st = .ok (pushSeg st (.l (x1, y1))) ∧
+    call .c [.num x1, .num y1, .num x2, .num y2, .num x3, .num y3] st = .ok (pushSeg st (.c (x1, y1) (x2, y2) (x3, y3))) ∧
+    call .v [.num x2, .num y2, .num x3, .num y3] st = .ok (pushSeg st (.v (x2, y2) (x3, y3))) ∧
+    call .y [.num x1, .num y1, .num x3, .num y3] st = .ok (pushSeg st (.y (x1, y1) (x3, y3))) :=
+  ⟨rfl, rfl, rfl, rfl, rfl⟩
+
+/-- `cm` PRE-multiplies (`self.ctm = mult_matrix(matrix, self.ctm)`, ISO 32000-1 8.3.4: CTM' = M x CTM): a
+point is first mapped by the new matrix, then by the old CTM.  For every pair of matrices and every point. -/
+theorem C16_cm_composes (st : IState) (a b c d e f : Rat) (p : Point) :
+    ∃ st', call .cm [.num a, .num b, .num c, .num d, .num e, .num f] st = .ok st' ∧
+      apply_matrix_pt st'.ctm p = apply_matrix_pt st.ctm (apply_matrix_pt (a, b, c, d, e, f) p) ∧
+      st'.gs = st.gs ∧ st'.curpath = st.curpath ∧ st'.gstack = st.gstack ∧ st'.out = st.out := by
+  refine ⟨_, rfl, ?_, rfl, rfl, rfl, rfl⟩
+  obtain ⟨a0, b0, c0, d0, e0, f0⟩ := st.ctm
+  obtain ⟨x, y⟩ := p
+  simp only [cmPremultiplies, if_true, mult_matrix, apply_matrix_pt, Prod.mk.injEq]
+  constructor <;> grind
+
+/-! ## Round 6: one shape per sub-path; attributes and the no-`m` rule for ANY path -/
+
+/-- Exactly one shape per painted sub-path with at least one segment (any number of sub-paths, closed or not,
+`re` or `m …`, any painting operator): the number of shapes with a segment equals the number of such
+sub-paths. -/
+theorem C16_one_shape_per_subpath (g : SGState) (st fi eo : Bool) (sps : List SubPath) (stp : Point)
+    (hok : okFrom stp false sps) :
+    ((paintPath g.ctm (argsOf g st fi eo) (enc sps)).filter hasSeg).length =
+      (sps.filter (fun sp => !sp.segs.isEmpty)).length := by
+  rw [C16_paint_path g st fi eo sps stp hok, shapeOf_count]
+
+/-- For EVERY `curpath` whatsoever (ill-formed included: segments before any `m`, `h` first, several `m`)
+and every matrix: each shape `paint_path` creates carries the stroke / fill / even-odd flags of the call and
+the line width, dash pattern, stroking and non-stroking colour of the graphics state passed to it. -/
+theorem C16_paint_attributes (ctm : Matrix) (a : PaintArgs) (path : List PSeg) :
+    ∀ s ∈ paintPath ctm a path,
+      s.stroke = a.stroke ∧ s.fill = a.fill ∧ s.evenodd = a.evenodd ∧ s.linewidth = a.gs.linewidth ∧
+      s.dash = a.gs.dash ∧ s.scolor = a.gs.scolor ∧ s.ncolor = a.gs.ncolor :=
+  paintPath_attrs ctm a path
+
+/-- The same through the interpreter's dispatch: whatever a painting operator adds to the page carries the
+graphics state in force at that moment and the operator's flags from the regenerated table `paintOps`
+(= ISO table 60 by `C16_paint_flags`) - on ANY interpreter state (any path, any operand stack). -/
+theorem C16_painted_with_state_in_force (k : OpK) (hk' : k ∈ [OpK.S, .s, .f, .F, .fstar, .B, .Bstar, .b, .bstar])
+    (cl x y z : Bool) (hk : paintOps.lookup k.name = some (cl, x, y, z)) (st : IState) :
+    ∃ st' new, doOp k st = .ok st' ∧ st'.out = st.out ++ new ∧
+      ∀ s ∈ new, s.linewidth = st.gs.linewidth ∧ s.dash = st.gs.dash ∧ s.scolor = st.gs.scolor ∧
+        s.ncolor = st.gs.ncolor ∧ s.stroke = x ∧ s.fill = y ∧ s.evenodd = z := by
+  have hH : ∀ s : IState, (doH s).gs = s.gs ∧ (doH s).out = s.out := by
+    intro s; unfold doH; split <;> exact ⟨rfl, rfl⟩
+  have key : ∀ (s0 : IState), ∀ s ∈ paintPath s0.ctm ⟨s0.gs, x, y, z⟩ s0.curpath,
+      s.linewidth = s0.gs.linewidth ∧ s.dash = s0.gs.dash ∧ s.scolor = s0.gs.scolor ∧ s.ncolor = s0.gs.ncolor ∧
+      s.stroke = x ∧ s.fill = y ∧ s.evenodd = z := by
+    intro s0 s hs
+    obtain ⟨h1, h2, h3, h4, h5, h6, h7⟩ := paintPath_attrs _ _ _ s hs
+    exact ⟨h4, h5, h6, h7, h1, h2, h3⟩
+  have hcall : doOp k st = .ok (doPaint (if cl = true then doH st else st) x y z) := by
+    simp only [List.mem_cons, List.mem_nil_iff, or_false] at hk'
+    rcases hk' with rfl | rfl | rfl | rfl | rfl | rfl | rfl | rfl | rfl <;>
+      (rw [doOp_call0 _ (by decide)]; simp only [call, hk])
+  refine ⟨_, paintPath (if cl = true then doH st else st).ctm ⟨(if cl = true then doH st else st).gs, x, y, z⟩
+    (if cl = true then doH st else st).curpath, hcall, ?_, ?_⟩
+  · cases cl
+    · rfl
+    · show (doH st).out ++ _ = st.out ++ _
+      rw [(hH st).2]
+  · intro s hs
+    have := key _ s hs
+    cases cl
+    · exact this
+    · simp only [if_true] at this
+      rw [(hH st).1] at this
+      exact this
+
+/-- Segments that do not belong to a sub-path begun by `m` / `re` (the path does not start with `m`) are
+never painted - and the painting operator still clears them (`C16_paint_frame`). -/
+theorem C16_no_start_no_shape (ctm : Matrix) (a : PaintArgs) (path : List PSeg)
+    (h : ∀ p rest, path ≠ PSeg.m p :: rest) : paintPath ctm a path = [] :=
+  paintPath_no_m ctm a path h
+
+example : paintPath (1, 0, 0, 1, 0, 0) (argsOf cexG true true false) [.l (1, 1), .l (2, 2), .h] = [] ∧
+    (paintPath (2, 0, 0, 2, 0, 0) (argsOf cexG true true false)
+      (enc [cexRect, { start := (5, 5), segs := [], closed := true }, { start := (1, 1), segs := [.l (1, 1)], closed := false }])).map
+        (fun s => (s.kind, s.pts, s.stroke, s.fill)) =
+      [(.rect, [(0, 0), (0, 2), (4, 2), (4, 0)], true, true), (.curve, [(10, 10), (10, 10)], true, true),
+       (.line, [(2, 2), (2, 2)], true, true)] := by
+  refine ⟨by decide +kernel, by decide +kernel⟩
+
+/-! ## Round 6: pages are isolated (one interpreter, many pages) -/
+
+/-- "Paths ended without painting yield nothing and leave no residue" across pages: when several pages are
+run through ONE interpreter (as `extract_pages` does), whatever state the earlier pages leave behind - a
+path under construction that was never painted (`re W` without `n`, `m l` at the end of the content),
+unmatched `q`, colours, line width, dash, CTM, colour spaces, operands on the stack - the shapes of page k
+are a function of page k's set-up and content ONLY.  `init_state`'s list of overwritten attributes is
+regenerated from pdfinterp.py: dropping one of them breaks this proof. -/
+theorem C16_page_isolation (prev : IState) (pages : List PageIn) :
+    runPagesFrom prev pages = pages.map (fun p => runPage p.rotate p.mb p.res p.toks) :=
+  runPagesFrom_eq prev pages
+
+/-- Every page starts from the initial graphics state and an empty path, whatever came before. -/
+theorem C16_page_starts_fresh (prev : IState) (ctm : Matrix) (res : List (String × CsSpec)) :
+    (initStateOn prev ctm res).curpath = [] ∧ (initStateOn prev ctm res).gstack = [] ∧
+    (initStateOn prev ctm res).argstack = [] ∧ (initStateOn prev ctm res).ctm = ctm ∧
+    (initStateOn prev ctm res).gs.linewidth = 0 ∧ (initStateOn prev ctm res).gs.dash = none ∧
+    (initStateOn prev ctm res).gs.scolor = none ∧ (initStateOn prev ctm res).gs.ncolor = none ∧
+    (initStateOn prev ctm res).out = [] := by
+  rw [initStateOn_eq]
+  exact ⟨rfl, rfl, rfl, rfl, rfl, rfl, rfl, rfl, rfl⟩
+
+/-- Non-vacuity: page 1 ends with `1 0 0 RG 3 w q 100 100 50 60 re W` (dangling clip path, unmatched `q`),
+page 2 strokes one line: page 2 has exactly its own line, with the default width and no colour. -/
+example :
+    (runPagesFrom (initState (1, 0, 0, 1, 0, 0) [])
+      [⟨0, (0, 0, 400, 400), [],
+         [.operand (.num 1), .operand (.num 0), .operand (.num 0), .op .RG, .operand (.num 3), .op .w, .op .q,
+          .operand (.num 100), .operand (.num 100), .operand (.num 50), .operand (.num 60), .op .re, .op .W]⟩,
+       ⟨0, (0, 0, 400, 400), [],
+         [.operand (.num 30), .operand (.num 30), .op .m, .operand (.num 60), .operand (.num 30), .op .l, .op .S]⟩]).map
+      (fun r => match r with
+        | .ok shapes => some shapes
+        | .error _ => none) =
+    [some [], some [{ kind := .line, pts := [(30, 30), (60, 30)], path := [.m (30, 30), .l (60, 30)],
+                      bbox := some (30, 30, 60, 30), linewidth := 0, stroke := true, fill := false,
+                      evenodd := false, scolor := none, ncolor := none, dash := none }]] := by
+  decide +kernel
+
+/-! ## Frame rules: clipping does not paint; painting touches nothing but the path and the output -/
+
+/-- `W` / `W*` (empty bodies in pdfinterp.py, checked by the translator) are no-ops of the interpreter:
+nothing is painted, the current path stays for the painting operator that follows, nothing else changes -
+for every state and operand stack. -/
+theorem C16_clip_does_not_paint (k : OpK) (hk : k ∈ [OpK.W, .Wstar]) (st : IState) : doOp k st = .ok st := by
+  simp only [List.mem_cons, List.mem_nil_iff, or_false] at hk
+  rcases hk with rfl | rfl <;> rfl
+
+/-- Every painting operator and `n`, run through `execute`'s dispatch on ANY state: the path is cleared, and
+CTM, graphics state (width, dash, colours, colour spaces), saved states, operand stack and colour-space map
+are untouched; `n` leaves the output untouched too. -/
+theorem C16_paint_frame (k : OpK) (hk : k ∈ [OpK.S, .s, .f, .F, .fstar, .B, .Bstar, .b, .bstar, .n]) (st : IState) :
+    ∃ st', doOp k st = .ok st' ∧ st'.curpath = [] ∧ st'.ctm = st.ctm ∧ st'.gs = st.gs ∧
+      st'.gstack = st.gstack ∧ st'.argstack = st.argstack ∧ st'.csmap = st.csmap ∧
+      (k = .n → st'.out = st.out) := by
+  have hH : ∀ s : IState, (doH s).ctm = s.ctm ∧ (doH s).gs = s.gs ∧ (doH s).gstack = s.gstack ∧
+      (doH s).argstack = s.argstack ∧ (doH s).csmap = s.csmap := by
+    intro s; unfold doH; split <;> exact ⟨rfl, rfl, rfl, rfl, rfl⟩
+  simp only [List.mem_cons, List.mem_nil_iff, or_false] at hk
+  rcases hk with rfl | rfl | rfl | rfl | rfl | rfl | rfl | rfl | rfl | rfl
+  case inr.inr.inr.inr.inr.inr.inr.inr.inr => exact ⟨_, rfl, rfl, rfl, rfl, rfl, rfl, rfl, fun _ => rfl⟩
+  all_goals first
+    | exact ⟨_, rfl, rfl, rfl, rfl, rfl, rfl, rfl, fun hn => by cases hn⟩
+    | exact ⟨_, rfl, rfl, (hH st).1, (hH st).2.1, (hH st).2.2.1, (hH st).2.2.2.1, (hH st).2.2.2.2,
+        fun hn => by cases hn⟩
+
+/-- A clipping operator between path construction and painting changes nothing: `… W n`, `… W* f` etc. -/
+theorem C16_clip_then_paint (c k : OpK) (hc : c ∈ [OpK.W, .Wstar]) (rest : List Tok) (st : IState) :
+    execute (.op c :: .op k :: rest) st = execute (.op k :: rest) st := by
+  simp only [execute, step, C16_clip_does_not_paint c hc st]
 
 /-! ## Totality -/
 
@@ -238,13 +504,16 @@ theorem C16_gstack_untouched (k : OpK) (hq : k ≠ .q) (hQ : k ≠ .Q) (st st' :
         simp only at h
         repeat' split at h
         all_goals (cases h <;> first | (rw [e4]; exact hpop _) | exact hpop _ | rfl)
+      have e8 : ∀ (k : OpK) (args : List Operand) (s : IState), (doSeg k args s).gstack = s.gstack := by
+        intro k args s; unfold doSeg; repeat' split
+        all_goals rfl
       cases k <;> first | exact absurd rfl hq | exact absurd rfl hQ | skip
       all_goals simp only [call] at hc
       all_goals repeat' split at hc
       all_goals first
         | exact e7 _ _ _ hc
         | (cases hc <;> first
-             | rfl | exact e1 _ _ | exact e2 _ | exact e6 _ _ _ _ | exact e5 _ _ _
+             | rfl | exact e1 _ _ | exact e2 _ | exact e6 _ _ _ _ | exact e5 _ _ _ | exact e8 _ _ _
              | (rw [e3]; split <;> first | rfl | exact e2 _))
     by_cases hn : nargs = 0
     · simp only [hn, if_true] at h
